@@ -570,6 +570,7 @@ type netSim struct {
 	byzTime bool               // Byzantine validators use adversarial timestamps
 	mirror  bool               // Byzantine validators echo every correct vote back to its signer
 	deferOwn bool              // own messages are sometimes processed late
+	byzQuiet bool              // Byzantine validators withhold everything during the synchronous phases
 	step    int
 	failed  map[string]bool
 	tickOps []string // C04: ticker log (input, observed)
@@ -1513,6 +1514,10 @@ func (s *netSim) restart(nd *netNode) {
 	}
 	if st.Validators.GetProposer() == nil || want.Validators.GetProposer() == nil || !st.Validators.GetProposer().Address.Equal(want.Validators.GetProposer().Address) {
 		s.fail("restart-proposer-mismatch", fmt.Sprintf("node=%d h=%d restarted node expects another proposer", nd.id, nd.cs.Height))
+		// reported (C14's defect); the run goes on with the state the node had in memory, so that what
+		// follows is not a consequence of this failure
+		st = want.Copy()
+		s.o.Count("restart:state-repaired-after-mismatch")
 	}
 	nd.eb.Stop()
 	nn := s.newNode(nd.id, st, nd)
@@ -1776,7 +1781,7 @@ func (s *netSim) synchronous(target uint64) bool {
 			return false
 		}
 		// Byzantine validators keep acting (their messages are delivered at once, then gossiped)
-		if s.r.Chance(1, 6) {
+		if !s.byzQuiet && s.r.Chance(1, 6) {
 			s.byzAct(true)
 		}
 		// flights of correct nodes are superseded by gossip; Byzantine flights arrive
@@ -2240,11 +2245,12 @@ func netRun(o *netOut, r *netRand, idx int, mode string) {
 	s.byzTime = r.Chance(1, 4)
 	s.mirror = r.Chance(1, 4)
 	s.deferOwn = r.Chance(1, 3)
+	s.byzQuiet = r.Chance(1, 3)
 	nb := 0
 	for _, b := range s.byz {
 		nb += netB(b)
 	}
-	o.Case(idx, fmt.Sprintf("CASE %d mode=%s n=%d byz=%d powers=%s doc=%d byztime=%d mirror=%d", idx, mode, n, nb, dist, netB(useDoc), netB(s.byzTime), netB(s.mirror)))
+	o.Case(idx, fmt.Sprintf("CASE %d mode=%s n=%d byz=%d powers=%s doc=%d byztime=%d mirror=%d quiet=%d", idx, mode, n, nb, dist, netB(useDoc), netB(s.byzTime), netB(s.mirror), netB(s.byzQuiet)))
 	o.Count(fmt.Sprintf("n:%d", n))
 	o.Count(fmt.Sprintf("byz:%d", nb))
 	o.Count("powers:" + dist)
